@@ -177,16 +177,7 @@ func callNative(t *Thread, c *Closure, args []Value, pos token.Pos) Value {
 
 func (e *Exec) freshStr(prefix string) *Term {
 	e.errSeq++
-	name := fmt.Sprintf("%s_%d", prefix, e.errSeq)
-	if e.concrete != nil {
-		// concrete re-execution: the fresh string takes its value from the model (distinct default ids
-		// for those the model does not mention), so that comparisons of messages fold
-		if bits, ok := e.concrete[name]; ok {
-			return e.ts.BV(StrSort.W, bits)
-		}
-		return e.ts.BV(StrSort.W, uint64(0x7E000000+e.errSeq))
-	}
-	return e.ts.Var(name, StrSort)
+	return e.ts.Var(fmt.Sprintf("%s_%d", prefix, e.errSeq), StrSort)
 }
 
 func variadicArgs(v Value) []Value {
